@@ -4,7 +4,7 @@
 // pass -killpass (Put reads its input twice: pass 1 hashes, pass 2 copies into
 // the data file). It is the crash-point helper of check C05.
 //
-//	putter -dir D -key K -ver V -len L [-chunk C] [-killat k [-killpass p]]
+//	putter -dir D -key K -ver V -len L [-chunk C] [-killat k [-killpass p]] [-flipat j]
 //	putter -dir D -key K -get          (lookup in a fresh process)
 //
 // Output: "DONE <outputid> <size>" after a completed Put; exit status 3 with
@@ -12,6 +12,7 @@
 package main
 
 import (
+	"bytes"
 	"crypto/sha256"
 	"flag"
 	"fmt"
@@ -38,6 +39,7 @@ type src struct {
 	handed   int // bytes handed out in the current pass
 	killAt   int
 	killPass int
+	flipAt   int // >= 0: from the second pass on, the byte at this offset differs (content changed underfoot)
 }
 
 func (s *src) Read(p []byte) (int, error) {
@@ -59,6 +61,9 @@ func (s *src) Read(p []byte) (int, error) {
 		n = s.killAt - s.handed // stop exactly at the crash point
 	}
 	copy(p, s.data[s.pos:s.pos+n])
+	if s.flipAt >= 0 && s.pass >= 2 && s.flipAt >= s.pos && s.flipAt < s.pos+n {
+		p[s.flipAt-s.pos] ^= 0xff
+	}
 	s.pos += n
 	s.handed += n
 	return n, nil
@@ -82,7 +87,10 @@ func main() {
 	chunk := flag.Int("chunk", 0, "largest number of bytes handed out per Read (0 = unlimited)")
 	killAt := flag.Int("killat", -1, "SIGKILL self once this many bytes were handed out in pass -killpass (-1 = never)")
 	killPass := flag.Int("killpass", 2, "1 = hash pass, 2 = copy pass")
+	flipAt := flag.Int("flipat", -1, "serve a different byte at this offset from the second pass on (content changed underfoot; Put must fail)")
 	get := flag.Bool("get", false, "look the key up instead of storing")
+	contentKey := flag.String("contentkey", "", "generate the content of this key instead of -key (same output under another action id)")
+	readback := flag.Bool("readback", false, "after Put, read DiskCache.OutputFile(out) as runner.writeCacheReader's callers do and print READBACK ok|gone|partial|other")
 	flag.Parse()
 
 	c, err := cache.Open(*dir)
@@ -106,11 +114,27 @@ func main() {
 		}
 		return
 	}
-	s := &src{data: c05.Content(*key, *ver, *n), chunk: *chunk, killAt: *killAt, killPass: *killPass}
+	if *contentKey == "" {
+		*contentKey = *key
+	}
+	s := &src{data: c05.Content(*contentKey, *ver, *n), chunk: *chunk, killAt: *killAt, killPass: *killPass, flipAt: *flipAt}
 	out, size, err := c.Put(id, s)
 	if err != nil {
 		fmt.Println("ERR put:", err)
 		os.Exit(3)
 	}
 	fmt.Printf("DONE %x %d\n", out, size)
+	if *readback {
+		got, err := os.ReadFile(c.OutputFile(out))
+		switch {
+		case err != nil:
+			fmt.Println("READBACK gone", err)
+		case bytes.Equal(got, s.data):
+			fmt.Println("READBACK ok")
+		case len(got) < len(s.data) && bytes.HasPrefix(s.data, got):
+			fmt.Println("READBACK partial", len(got))
+		default:
+			fmt.Println("READBACK other", len(got))
+		}
+	}
 }
